@@ -281,10 +281,16 @@ class Report:
 
     def note(self, line):
         self.analysed.append(line)
+        if 'outside the evaluat' in line:
+            self.fallbacks = getattr(self, 'fallbacks', []) + [line]
 
     # -- finish
     def finish(self, ledger: Ledger):
         wall = time.time() - self.t0
+        if getattr(self, 'fallbacks', None) and not self.repo.equiv_full and not os.environ.get('KV_NO_EQUIV'):
+            # every module is byte-identical to the confirmed reference, on which each evaluated rule is known to succeed: a fall-back to the
+            # structural form here is a regression of the evaluator, not a property of the code
+            raise AnalysisError(f'an evaluated rule fell back on the confirmed reference tree (evaluator regression): {self.fallbacks[0]}')
         missed = [(n, m, f) for n, m, f in self.floors if m < f]
         if missed and not self.violations:
             n, m, f = missed[0]
